@@ -178,6 +178,13 @@ func runE2E(t *testing.T, r *rep.Reporter, c *rep.Case, idx int) {
 	cfg := genConfig(p)
 	cfg.e2e = true
 	id := fmt.Sprintf("%d_%d", r.Seed(), idx)
+	withActions := idx >= groupE
+	pfx := "e2e_"
+	if withActions {
+		// group E: the action directives written out (stream of their own)
+		cfg.genActions(prng.New(r.Seed(), uint64(idx), "c15-actions"), idx-groupE)
+		pfx = "act_e2e_"
+	}
 
 	mem := mx.NewTable("c15tbl_" + id)
 	mx.RegisterInstance(mem)
@@ -208,6 +215,9 @@ func runE2E(t *testing.T, r *rep.Reporter, c *rep.Case, idx int) {
 	if p.Chance(1, 4) {
 		kind = "smtp" // authentication offered but not required by the endpoint
 	}
+	if withActions && (cfg.forcedDirective == "unauth_action" || p.Bool()) {
+		kind = "smtp" // unauth_action is reachable only where the endpoint itself admits unauthenticated clients
+	}
 	var b strings.Builder
 	fmt.Fprintf(&b, "hostname mx.c15.test\ntls off\nauth &c15pt_%s\n", id)
 	if p.Bool() {
@@ -232,7 +242,7 @@ func runE2E(t *testing.T, r *rep.Reporter, c *rep.Case, idx int) {
 	}()
 
 	var k tallies
-	defer k.flush(r, "e2e_")
+	defer k.flush(r, pfx)
 	var accepted, refused, authFailed int64
 	nontrivial := false
 	var shapes []string
@@ -241,6 +251,9 @@ func runE2E(t *testing.T, r *rep.Reporter, c *rep.Case, idx int) {
 	for cn := 0; cn < nconn; cn++ {
 		user := cfg.pickUser(p, users)
 		authenticate := kind == "submission" || !p.Chance(1, 3)
+		if withActions && kind == "smtp" && cfg.forcedDirective == "unauth_action" && cn == 0 {
+			authenticate = false
+		}
 		w, err := dialWire(addr)
 		if err != nil {
 			c.Inconclusive("dial: " + err.Error())
@@ -284,7 +297,11 @@ func runE2E(t *testing.T, r *rep.Reporter, c *rep.Case, idx int) {
 		}
 		nmsg := p.Range(2, 4)
 		for mi := 0; mi < nmsg; mi++ {
-			m := cfg.genMessage(p, user, authUser, 18)
+			mfEntProb := 18
+			if withActions {
+				mfEntProb = 13 // more envelope senders the user is not entitled to
+			}
+			m := cfg.genMessage(p, user, authUser, mfEntProb)
 			if m.MFKinds == "malformed" { // not expressible in SMTP syntax
 				m.MailFrom, m.MFClass, m.MFKinds, m.MFJudged, m.MFRelation = "", "<>", "null", true, "null-reverse-path"
 				for _, v := range cfg.userValues(user.canon()) {
@@ -296,6 +313,7 @@ func runE2E(t *testing.T, r *rep.Reporter, c *rep.Case, idx int) {
 			hf := m.headerFacts()
 			raw := m.raw()
 			start := len(w.log)
+			evBefore := lg.Len()
 			mailCmd := "MAIL FROM:<" + m.MailFrom + ">"
 			utf8 := !isASCII(m.MailFrom)
 			if utf8 {
@@ -322,7 +340,25 @@ func runE2E(t *testing.T, r *rep.Reporter, c *rep.Case, idx int) {
 				return
 			}
 			ok := stage == "eod" && code == 250
-			if !ok {
+			wireOK := ok
+			refusalCode := code
+			// what the target saw of this message (sessions and messages of one
+			// scenario are strictly sequential; Body and Commit happen before the
+			// reply to the final dot is written)
+			committed, sawBody, flagged := false, false, false
+			for _, e := range lg.Events()[evBefore:] {
+				switch {
+				case e.Kind == "commit" && e.Err == "":
+					committed = true
+				case (e.Kind == "body" || e.Kind == "bodyna") && e.Meta != nil:
+					sawBody, flagged = true, e.Meta.Quarantine
+				}
+			}
+			if !ok && committed {
+				ok = true // refused on the wire but handed to the target: accepted
+				stage += "+committed-although-refused"
+			}
+			if !wireOK {
 				if _, _, err := w.cmd("RSET"); err != nil {
 					fail(err)
 					return
@@ -331,7 +367,8 @@ func runE2E(t *testing.T, r *rep.Reporter, c *rep.Case, idx int) {
 			transcript := append([]string(nil), w.log[start:]...)
 			wit := func() any {
 				return map[string]any{"endpoint": kind, "config": b.String(), "message": m, "header_text": raw, "header_facts": hf,
-					"user_values": cfg.userValues(user.canon()), "transcript": transcript, "target_events": lg.Strings(12)}
+					"user_values": cfg.userValues(user.canon()), "transcript": transcript, "target_events": lg.Strings(12),
+					"actions": cfg.actsWitness(), "committed_at_target": committed, "quarantine_flag_at_target": flagged}
 			}
 			k.sender++
 			k.body++
@@ -351,21 +388,83 @@ func runE2E(t *testing.T, r *rep.Reporter, c *rep.Case, idx int) {
 			} else {
 				refused++
 			}
+			// the failing case of this message (first that applies) and the
+			// directives whose action can apply to it
+			failing, base, what := "", "", ""
+			var dirs []string
 			switch {
 			case !authenticate:
+				failing, dirs = "unauthenticated", dirsUnauthMail
+				base = "e2e/unauthenticated/accepted/endpoint=" + kind
+				what = "a message from an unauthenticated client was accepted by an endpoint using authorize_sender"
+			case m.MFJudged && !m.MFEntitled:
+				failing, dirs = "mail-from-not-entitled", dirsNoMatch
+				base = "e2e/mail-from/accepted-not-entitled/" + m.MFRelation
+				what = fmt.Sprintf("message accepted with MAIL FROM %q (class %s) user %q (class %s) is not entitled to", m.MailFrom, m.MFClass, m.AuthUser, m.UserClass)
+			case hf.Judged && !hf.Allowed:
+				failing, dirs = "foreign-author", dirsNoMatch
+				base = "e2e/header/accepted-foreign-author/" + hf.Cause
+				what = fmt.Sprintf("message accepted although From carries %d address(es) user %q is not entitled to and no entitled Sender (%s)", hf.ForeignFrom, m.AuthUser, hf.Cause)
+			}
+			g := "reject"
+			if failing != "" {
+				g = cfg.govern(dirs...)
+			}
+			if failing == "unauthenticated" {
 				k.unauth++
-				if ok {
-					c.Violation("e2e/unauthenticated/accepted/endpoint="+kind, "a message from an unauthenticated client was accepted by an endpoint using authorize_sender", wit())
-				} else {
-					k.unauthRefused++
-					nontrivial = true
+			}
+			count := func(what string) {
+				if withActions && failing != "" {
+					cfg.countShapes(r.Count, pfx+what+"_", dirs...)
 				}
-			case ok && m.MFJudged && !m.MFEntitled:
-				c.Violation("e2e/mail-from/accepted-not-entitled/"+m.MFRelation,
-					fmt.Sprintf("message accepted with MAIL FROM %q (class %s) user %q (class %s) is not entitled to", m.MailFrom, m.MFClass, m.AuthUser, m.UserClass), wit())
-			case ok && hf.Judged && !hf.Allowed:
-				c.Violation("e2e/header/accepted-foreign-author/"+hf.Cause,
-					fmt.Sprintf("message accepted although From carries %d address(es) user %q is not entitled to and no entitled Sender (%s)", hf.ForeignFrom, m.AuthUser, hf.Cause), wit())
+			}
+			switch {
+			case failing != "" && g == "ignore":
+				// the administrator switched the refusal off: acceptance not judged
+				count("not_judged")
+			case failing != "" && ok && g == "reject":
+				if withActions && cfg.customised(dirs...) {
+					// cause class: how the governing actions are written (the
+					// unchanged groups A-C judge the entitlement relation itself)
+					base = "e2e/" + failing + "/accepted-under-reject-action/actions-written=" + cfg.shapeSet(dirs...)
+				}
+				c.Violation(base, what, wit())
+			case failing != "" && ok && !sawBody:
+				c.Inconclusive("accepted message without a body event at the target")
+			case failing != "" && ok && !flagged:
+				c.Violation("e2e/quarantine-action/not-flagged-at-target/"+failing+"/actions-written="+cfg.shapeSet(dirs...),
+					what+" and reached the target without the quarantine flag although every action that applies is quarantine or reject", wit())
+			case failing != "" && ok:
+				nontrivial = true
+				count("quarantined_at_target")
+				r.Count(pfx+"accepted_quarantined_at_target", 1)
+			case failing != "":
+				// refused
+				nontrivial = true
+				if g == "reject" {
+					count("refused")
+				}
+				switch failing {
+				case "unauthenticated":
+					k.unauthRefused++
+				case "mail-from-not-entitled":
+					k.senderRejectForeign++
+				default:
+					k.bodyRejectForeign++
+				}
+				if withActions {
+					custom := false
+					for _, d := range actionDirectives {
+						if a := cfg.acts[d]; a.Code != 0 && a.Code == refusalCode {
+							custom = true
+						}
+					}
+					if custom {
+						r.Count(pfx+"refusals_with_a_configured_reply_code_not_judged", 1)
+					} else {
+						r.Count(pfx+"refusals_with_another_reply_code_not_judged", 1)
+					}
+				}
 			case ok:
 				k.bodyPass++
 				k.senderPassEntitled++
@@ -374,28 +473,27 @@ func runE2E(t *testing.T, r *rep.Reporter, c *rep.Case, idx int) {
 					k.bodyPassViaSender++
 				}
 			default:
-				if m.MFJudged && !m.MFEntitled {
-					k.senderRejectForeign++
-					nontrivial = true
-				} else if hf.Judged && !hf.Allowed {
-					k.bodyRejectForeign++
-					nontrivial = true
-				} else {
-					k.bodyRejectAllowed++
-				}
+				k.bodyRejectAllowed++
 			}
 			shapes = append(shapes, fmt.Sprintf("auth=%v/from=%d/sender=%d/foreign=%v/ok=%v@%s", authenticate, len(m.From), len(m.Sender), hf.ForeignFrom > 0, ok, stage))
-			if idx == groupB && cn == 0 && mi == 0 {
+			if (idx == groupB || idx == groupE+4) && cn == 0 && mi == 0 {
 				r.Sample(map[string]any{"endpoint": kind, "config": b.String(), "transcript": transcript, "header_text": raw, "accepted": ok})
 			}
 		}
 		w.cmd("QUIT")
 		w.conn.Close()
 	}
-	r.Count("e2e_messages_accepted", accepted)
-	r.Count("e2e_messages_refused", refused)
-	r.Count("e2e_auth_failed_sessions_skipped", authFailed)
-	r.Count("e2e_target_commits", int64(len(lg.Filter(func(e mx.Event) bool { return e.Kind == "commit" }))))
+	r.Count(pfx+"messages_accepted", accepted)
+	r.Count(pfx+"messages_refused", refused)
+	r.Count(pfx+"auth_failed_sessions_skipped", authFailed)
+	r.Count(pfx+"target_commits", int64(len(lg.Filter(func(e mx.Event) bool { return e.Kind == "commit" }))))
 	r.Distinct("e2e_endpoint_kinds", kind)
-	c.Done("B/"+kind+"/"+cfg.uKind+"/"+cfg.pKind+"/"+strings.Join(shapes, ";"), nontrivial)
+	grp := "B/"
+	if withActions {
+		grp = "E/" + cfg.actShape("unauth_action") + "," + cfg.actShape("no_match_action") + "," + cfg.actShape("err_action") + "/"
+		for _, d := range actionDirectives {
+			r.Count(pfx+"configs_"+d+"_"+cfg.actShape(d), 1)
+		}
+	}
+	c.Done(grp+kind+"/"+cfg.uKind+"/"+cfg.pKind+"/"+strings.Join(shapes, ";"), nontrivial)
 }
